@@ -228,6 +228,7 @@ func runC19(t *testing.T, tp *simrt.Tape, keepTrace bool, gcMode bool) hx.Result
 		n     int
 		kinds []int
 		gaps  []time.Duration
+		flush []time.Duration
 	}
 	gapChoices := []time.Duration{0, 0, time.Millisecond, 100 * time.Millisecond, 5 * time.Second}
 	var cplans []cplan
@@ -236,6 +237,7 @@ func runC19(t *testing.T, tp *simrt.Tape, keepTrace bool, gcMode bool) hx.Result
 		for k := 0; k < p.n; k++ {
 			p.kinds = append(p.kinds, tp.Gen(3))
 			p.gaps = append(p.gaps, gapChoices[tp.Gen(len(gapChoices))])
+			p.flush = append(p.flush, []time.Duration{0, time.Millisecond, 50 * time.Millisecond, time.Hour}[tp.Gen(4)])
 		}
 		cplans = append(cplans, p)
 	}
@@ -481,7 +483,10 @@ func runC19(t *testing.T, tp *simrt.Tape, keepTrace bool, gcMode bool) hx.Result
 							}
 						case 1:
 							a.kind = "stream"
-							err := searcher.StreamSearch(refCtx(), q, &zoekt.SearchOptions{}, zoekt.SenderFunc(func(r *zoekt.SearchResult) {
+							// FlushWallTime > 0 makes the searcher buffer results that still point
+							// into the shards' mapped files until the timer fires or the search ends
+							sopts := &zoekt.SearchOptions{FlushWallTime: pl.flush[k]}
+							err := searcher.StreamSearch(refCtx(), q, sopts, zoekt.SenderFunc(func(r *zoekt.SearchResult) {
 								a.crashes += r.Stats.Crashes
 								for _, f := range r.Files {
 									a.tokens[f.Repository+"@"+f.Version]++
